@@ -1,32 +1,35 @@
-"""Development driver: python -m pyvc.run <substring of contract key> ... (verifies matching contracts)."""
-import sys
-import time
+"""Development driver: python -m pyvc.run <substring of contract key | property id> ... [-v] [-s]
 
-import z3
+Verifies the matching contracts with the same worker as ``check`` (one fresh process per function, 16 at a
+time) and prints every obligation that is not discharged (-v: all of them; -s: serial, in-process)."""
+import multiprocessing as mp
+import sys
 
 
 def main():
     sys.path.insert(0, "/verif")
-    from .check import build_db, solve_obligation
-    from .contracts import verify_function
+    from .check import build_db, worker
 
     db = build_db()
-    pats = sys.argv[1:]
-    for key, c in db.contracts.items():
-        if c.trusted or c.inline or not any(p in key or p in c.properties for p in pats):
-            continue
-        res = verify_function(db, c)
-        print(f"== {key}: paths={res.paths} obligations={len(res.obligations)} t={res.seconds:.2f}s error={res.error}")
-        for ob in res.obligations:
-            r, solver, dt, model, _ = solve_obligation(ob, 20, "/tmp", "dev")
-            if r != "unsat" or "-v" in pats:
-                print(f"   {ob.name:60s} {r + '/' + solver:18s} {dt:.2f}s  {ob.info.get('clause','')[:70]}")
-                if model is not None:
-                    from .check import value_from_model
-                    try:
-                        print("      model:", {k: value_from_model(model, res.heap0, v) for k, v in res.param_values.items()})
-                    except Exception as e:
-                        print("      model error", e)
+    pats = [a for a in sys.argv[1:] if not a.startswith("-")]
+    verbose = "-v" in sys.argv
+    keys = [k for k, c in db.contracts.items()
+            if not c.trusted and not c.inline and any(p in k or p in c.properties for p in pats)]
+    tasks = [(k, "quick", 20.0, None, None) for k in keys]
+    if "-s" in sys.argv:
+        outs = map(worker, tasks)
+    else:
+        pool = mp.Pool(min(16, len(tasks) or 1), maxtasksperchild=1)
+        outs = pool.imap(worker, tasks)
+    for out in outs:
+        obs = out["obligations"]
+        bad = [o for o in obs if o["status"] != "unsat"]
+        print(f"== {out['key']}: paths={out['paths']} obligations={len(obs)} not-discharged={len(bad)} "
+              f"t={out['seconds']:.1f}s error={out['error']}", flush=True)
+        for o in (obs if verbose else bad):
+            print(f"   {o['name']:62s} {o['status']}/{o['solver']:14s} {o['time']:.2f}s  {str(o.get('clause', ''))[:70]}")
+            if o.get("model") and o["status"] == "sat":
+                print("      model:", str(o["model"])[:300])
 
 
 if __name__ == "__main__":
